@@ -29,6 +29,7 @@ struct RRoutine {
   int ntmps = 0;
   int out_var = 0;
   std::vector<RIns> code;
+  std::vector<std::pair<int, int>> loop_bodies;  // [first, last) instruction of every LOOP / WHILE body
   int var(const std::string &n) {
     for (size_t i = 0; i < vars.size(); i++) if (vars[i] == n) return (int)i;
     vars.push_back(n);
@@ -60,6 +61,7 @@ struct RefRun {
   bool out_of_range = false;      // some value reached 2^31-1: outside C01's scope
   std::vector<RefAct> final_acts; // live activations at the end (root first)
   int max_depth = 0;
+  long long jumps_into_loop = 0, jumps_out_of_loop = 0, jumps_backward = 0, calls = 0, stop_in_callee = 0;
 };
 RefRun ref_run(const RProgram &p, long long max_steps, size_t max_events);
 
